@@ -321,8 +321,10 @@ def install(E: Any) -> None:
             self.pre.ax(f"{key}.idx", z3.ForAll([m, i], z3.Implies(
                 z3.And(0 <= i, i < self.pre.seqf(ks, "len")(keys(m))),
                 self.pre.seqf(vseq, "idx")(f(m), i) == get(m, self.pre.seqf(ks, "idx")(keys(m), i))),
-                patterns=[self.pre.seqf(vseq, "idx")(f(m), i)]))
-        return V(f(obj.t), vseq)
+                patterns=[self.pre.seqf(vseq, "idx")(f(m), i), z3.MultiPattern(f(m), self.pre.seqf(ks, "idx")(keys(m), i))]))
+        r = V(f(obj.t), vseq)
+        self.mention(r)
+        return r
     E.methods["dict.values"] = m_dict_values
 
     def m_dict_keys(self: Any, obj: Any, n: ast.Call, st: Any) -> Any:
